@@ -96,7 +96,11 @@ Step(e, c) ==
             IF e.k = "close" THEN R([m EXCEPT !.rxClose = IF @ = 0 THEN e.code ELSE @], "")
             ELSE IF e.k = "bad" THEN R([m EXCEPT !.rxBad = TRUE, !.abn = TRUE], "")
             ELSE R([m EXCEPT !.nRx = @ + 1], "")
-      [] e.ev \in {"drop", "eof", "localclose"} -> R([m EXCEPT !.abn = TRUE, !.cut = TRUE], "")
+      [] e.ev \in {"drop", "eof"} -> R([m EXCEPT !.abn = TRUE, !.cut = TRUE], "")
+      \* a local teardown is recorded when it is REQUESTED (e.g. a task that will run session.close()); that
+      \* task may be cancelled before it closes anything, so whether the connection was cut is read off the
+      \* transport at quiescence (e.tcl), not off this event
+      [] e.ev = "localclose" -> R([m EXCEPT !.abn = TRUE], "")
       [] e.ev = "cancel" -> R([m EXCEPT !.soft = TRUE], "")
       [] e.ev = "blocked" ->
             R([m EXCEPT !.blkRecv = @ \/ e.k = "receive", !.blkClose = @ \/ e.k = "close"], "")
